@@ -720,6 +720,7 @@ class Explorer:
 
     def inline_call(self, st, fr, cb, args):
         """evaluate a straight-line callee in place; returns (ret, pure) or None"""
+        args = untuple_closure_args(cb, args)
         f2 = Frame(cb, args, fr.depth + 1)
         f2.evdepth = fr.evdepth + 1
         self._frames[f2.id] = f2
@@ -920,6 +921,9 @@ class Explorer:
             fargs = tuple(args)
         if cb.arg_count != len(fargs):
             raise CannotAnalyse('arity of callable %s' % cb.id)
+        st.path.events.append({'k': 'call', 'callee': cb.id, 'decl': cb.id, 'args': fargs, 'bb': b, 'line': t['line'], 'epoch': st.epoch,
+                               'term': t, 'exp': t.get('exp', False), 'depth': fr.evdepth + 1, 'in': fr.body.id, 'inlined': True,
+                               'expanded': True, 'pure': True, 'ret': ('c', ('zst', 'expanded')), 'applied': True})
         f2 = Frame(cb, fargs, fr.depth + 1)
         f2.evdepth = fr.evdepth
         f2.parent = fr
@@ -1272,6 +1276,9 @@ class Explorer:
                         payload = o[4][0]
                     else:
                         payload = simplify(('field', ('variant', opt, 'Some'), '0'))
+                    s2.path.events.append({'k': 'call', 'callee': ccb.id, 'decl': ccb.id, 'args': (cval, payload), 'bb': b, 'line': t['line'],
+                                           'epoch': s2.epoch, 'term': t, 'exp': t.get('exp', False), 'depth': fr.evdepth + 1, 'in': body.id,
+                                           'inlined': True, 'expanded': True, 'pure': True, 'ret': ('c', ('zst', 'expanded')), 'applied': True})
                     f2 = Frame(ccb, (cval, payload), fr.depth + 1)
                     f2.evdepth = fr.evdepth
                     f2.parent = fr
@@ -1288,7 +1295,7 @@ class Explorer:
                 cb = self.deep_inlinable(fr, t)
                 if cb is not None:
                     from facts import callee_name
-                    args = tuple(self.operand(st, fr, a) for a in t['args'])
+                    args = untuple_closure_args(cb, tuple(self.operand(st, fr, a) for a in t['args']))
                     ev = {'k': 'call', 'callee': callee_name(t), 'decl': callee_name(t), 'args': args, 'bb': b, 'line': t['line'],
                           'epoch': st.epoch, 'term': t, 'exp': t.get('exp', False), 'depth': fr.evdepth, 'in': body.id,
                           'inlined': True, 'expanded': True, 'pure': False, 'ret': ('c', ('zst', 'expanded'))}
@@ -1353,6 +1360,23 @@ def switch_target(t, v):
         if int(x) == cv:
             nxt = bb
     return nxt
+
+
+def untuple_closure_args(cb, args):
+    """a closure called through Fn / FnMut / FnOnce receives (environment, (a, b, ..)); its body takes (environment, a, b, ..)"""
+    if cb.j.get('kind') == 'Closure' and len(args) == 2 and cb.arg_count != 2:
+        tup = strip_upd(args[1])
+        if tup[0] == 'agg' and tup[1] == 'tuple' and len(tup[4]) == cb.arg_count - 1:
+            return (args[0],) + tuple(tup[4])
+    if cb.j.get('kind') == 'Closure' and len(args) == 2 and cb.arg_count == 2:
+        tup = strip_upd(args[1])
+        if tup[0] == 'agg' and tup[1] == 'tuple' and len(tup[4]) == 1:
+            return (args[0], tup[4][0])
+    if cb.j.get('kind') == 'Closure' and len(args) == 2 and cb.arg_count == 1:
+        tup = strip_upd(args[1])
+        if tup[0] == 'agg' and tup[1] == 'tuple' and len(tup[4]) == 0:
+            return (args[0],)
+    return args
 
 
 def is_straight_line(body):
